@@ -260,6 +260,11 @@ SpansOk(t, offs, s, m, parent) ==
         /\ m.sp # <<>>                                  \* (also when it has a single element)
         /\ \A x \in 1..Len(m.v) : Within(m.v[x].sp, m.sp)
         /\ m.sp[1] = m.v[1].sp[1] /\ m.sp[2] = m.v[Len(m.v)].sp[2]
+  \* a table with a header of its own, or an element of an array of tables: its slice is a piece of document that
+  \* starts with that header (complete: "[empty" without its bracket is not)
+  /\ (s.k = "t" /\ s.def \in {"header", "elem"} /\ m.sp # <<>>) =>
+        LET st == Statements(Slice(t, m.sp, offs)) IN
+        st.ok /\ Len(st.stmts) >= 1 /\ st.stmts[1].kind = (IF s.def = "elem" THEN "aot" ELSE "std")
   /\ CASE s.k = "a" -> Len(s.v) = Len(m.v) /\ \A x \in 1..Len(s.v) : SpansOk(t, offs, s.v[x], m.v[x], IF s.sp # NoSpan THEN m.sp ELSE <<>>)
        [] s.k = "t" ->
             /\ Len(s.v) = Len(m.v)
